@@ -386,3 +386,106 @@ package mocrelay
 //@     invariant len(ret) == len(filters)
 //@     invariant forall(j, 0, i, ret[j] != nil && fresh(ret[j]) && ret[j].cnt == 0 && repr(ret[j], filters[j]))
 //@     invariant forall(j, 0, i, forall(l, 0, j, ret[j] != ret[l]))
+
+// ---------------------------------------------------------------------------------------------
+// C18: subscription quota
+
+//@ func newSimpleMaxSubscriptionsMiddlewareBase
+//@   serves C18
+//@   writes nothing
+//@   panics maxSubs < 1
+//@   ensures fresh(result) && result.maxSubs == maxSubs && maxSubs >= 1
+
+//@ func simpleMaxSubscriptionsMiddlewareBase.ServeNostrStart
+//@   serves C18
+//@   requires m != nil && m.maxSubs >= 1
+//@   opt overflow=assume
+//@   writes nothing
+//@   ensures result1 == nil && quotaCtx(result0) && fresh(quotaOf(result0)) && fresh(quotaOf(result0).subs)
+//@   ensures openCount(result0) == 0 && all(k, string, !isOpen(result0, k))
+
+//@ func simpleMaxSubscriptionsMiddlewareBase.handleClientReqMsg
+//@   serves C18
+//@   requires m != nil && msg != nil && quotaCtx(ctx) && openCount(ctx) <= m.maxSubs && cardfacts(quotaOf(ctx).subs)
+//@   requires held(quotaOf(ctx).mu) == 0
+//@   opt overflow=assume
+//@   writes contents(quotaOf(ctx).subs), lock(quotaOf(ctx).mu)
+//@   ensures result2 == nil && held(quotaOf(ctx).mu) == 0
+//@   ensures openCount(ctx) <= m.maxSubs
+//@   ensures old(isOpen(ctx, msg.SubscriptionID) || openCount(ctx) < m.maxSubs) ==> (forwardsOnly(result0, result1, box(msg, ClientMsg)) && all(k, string, isOpen(ctx, k) == (old(isOpen(ctx, k)) || k == msg.SubscriptionID)))
+//@   ensures !old(isOpen(ctx, msg.SubscriptionID) || openCount(ctx) < m.maxSubs) ==> (isnil(result0) && holdsOneS(result1) && isClosedFor(chanbuf(result1)[0], msg.SubscriptionID) && all(k, string, isOpen(ctx, k) == old(isOpen(ctx, k))))
+
+//@ func simpleMaxSubscriptionsMiddlewareBase.handleClientCloseMsg
+//@   serves C18
+//@   requires m != nil && msg != nil && quotaCtx(ctx) && openCount(ctx) <= m.maxSubs && cardfacts(quotaOf(ctx).subs)
+//@   requires held(quotaOf(ctx).mu) == 0
+//@   writes contents(quotaOf(ctx).subs), lock(quotaOf(ctx).mu)
+//@   ensures result2 == nil && held(quotaOf(ctx).mu) == 0
+//@   ensures openCount(ctx) <= m.maxSubs
+//@   ensures forwardsOnly(result0, result1, box(msg, ClientMsg)) && all(k, string, isOpen(ctx, k) == (old(isOpen(ctx, k)) && k != msg.SubscriptionID))
+
+//@ func simpleMaxSubscriptionsMiddlewareBase.ServeNostrClientMsg
+//@   serves C18
+//@   requires m != nil && wfClientMsg(msg) && quotaCtx(ctx) && openCount(ctx) <= m.maxSubs && cardfacts(quotaOf(ctx).subs)
+//@   requires held(quotaOf(ctx).mu) == 0
+//@   writes contents(quotaOf(ctx).subs), lock(quotaOf(ctx).mu)
+//@   ensures err == nil && openCount(ctx) <= m.maxSubs
+//@   ensures (!typeis(msg, *ClientReqMsg) && !typeis(msg, *ClientCloseMsg)) ==> (forwardsOnly(cmsgCh, smsgCh, msg) && all(k, string, isOpen(ctx, k) == old(isOpen(ctx, k))))
+//@   ensures typeis(msg, *ClientCloseMsg) ==> (forwardsOnly(cmsgCh, smsgCh, msg) && all(k, string, isOpen(ctx, k) == (old(isOpen(ctx, k)) && k != as(msg, *ClientCloseMsg).SubscriptionID)))
+//@   ensures (typeis(msg, *ClientReqMsg) && old(isOpen(ctx, as(msg, *ClientReqMsg).SubscriptionID) || openCount(ctx) < m.maxSubs)) ==> (forwardsOnly(cmsgCh, smsgCh, msg) && all(k, string, isOpen(ctx, k) == (old(isOpen(ctx, k)) || k == as(msg, *ClientReqMsg).SubscriptionID)))
+//@   ensures (typeis(msg, *ClientReqMsg) && !old(isOpen(ctx, as(msg, *ClientReqMsg).SubscriptionID) || openCount(ctx) < m.maxSubs)) ==> (rejectsSub(cmsgCh, smsgCh, msg) && all(k, string, isOpen(ctx, k) == old(isOpen(ctx, k))))
+
+// ---------------------------------------------------------------------------------------------
+// C18: per-connection de-duplication (LRU window model: /verif/specs/externs.gvs)
+
+//@ func newSimpleRecvEventUniqueFilterMiddlewareBase
+//@   serves C18
+//@   writes nothing
+//@   panics size <= 0
+//@   ensures fresh(result) && result.c != nil && fresh(result.c) && len(g(lruwin, result.c)) == 0 && g(lrusize, result.c) == size
+
+//@ func newSimpleSendEventUniqueFilterMiddlewareBase
+//@   serves C18
+//@   writes nothing
+//@   panics size <= 0
+//@   ensures fresh(result) && result.c != nil && fresh(result.c) && len(g(lruwin, result.c)) == 0 && g(lrusize, result.c) == size
+
+//@ func simpleRecvEventUniqueFilterMiddlewareBase.ServeNostrClientMsg
+//@   serves C18
+//@   requires m != nil && m.c != nil && wfClientMsg(msg)
+//@   writes ghost(lruwin, m.c)
+//@   ensures result2 == nil
+//@   ensures !isEvent(msg) ==> (forwardsOnly(result0, result1, msg) && g(lruwin, m.c) == old(g(lruwin, m.c)))
+//@   ensures (isEvent(msg) && old(lruHas(g(lruwin, m.c), eventOf(msg).ID))) ==> (rejectsEvent(result0, result1, msg) && as(chanbuf(result1)[0], *ServerOKMsg).MsgPrefix == MachineReadablePrefixDuplicate && g(lruwin, m.c) == lruTouch(old(g(lruwin, m.c)), eventOf(msg).ID))
+//@   ensures (isEvent(msg) && !old(lruHas(g(lruwin, m.c), eventOf(msg).ID))) ==> (forwardsOnly(result0, result1, msg) && g(lruwin, m.c) == lruPush(old(g(lruwin, m.c)), eventOf(msg).ID, g(lrusize, m.c)))
+
+//@ func simpleSendEventUniqueFilterMiddlewareBase.ServeNostrClientMsg
+//@   serves C18
+//@   writes nothing
+//@   ensures result2 == nil && forwardsOnly(result0, result1, msg)
+
+//@ func simpleSendEventUniqueFilterMiddlewareBase.ServeNostrServerMsg
+//@   serves C18
+//@   requires m != nil && m.c != nil && wfServerMsg(msg)
+//@   writes ghost(lruwin, m.c)
+//@   ensures result1 == nil
+//@   ensures !typeis(msg, *ServerEventMsg) ==> (holdsS(result0, msg) && g(lruwin, m.c) == old(g(lruwin, m.c)))
+//@   ensures (typeis(msg, *ServerEventMsg) && old(lruHas(g(lruwin, m.c), as(msg, *ServerEventMsg).Event.ID))) ==> (isnil(result0) && g(lruwin, m.c) == lruTouch(old(g(lruwin, m.c)), as(msg, *ServerEventMsg).Event.ID))
+//@   ensures (typeis(msg, *ServerEventMsg) && !old(lruHas(g(lruwin, m.c), as(msg, *ServerEventMsg).Event.ID))) ==> (holdsS(result0, msg) && g(lruwin, m.c) == lruPush(old(g(lruwin, m.c)), as(msg, *ServerEventMsg).Event.ID, g(lrusize, m.c)))
+
+// per-connection state: every session builds its own base; NewSimpleMiddleware must be handed an object
+// created in the same activation (a base hoisted out of the per-session closure would be shared).
+//@ func NewSimpleMiddleware
+//@   trusted goroutine wiring of the middleware wrapper (concurrent glue, not under contract)
+//@   requires callerfresh(refof(base))
+//@   pure
+//@   ensures result != nil
+
+//@ iface (Handler).ServeNostr
+//@   params(h, ctx, send, recv)
+
+//@ func NewRecvEventUniqueFilterMiddleware$2
+//@   serves C18
+
+//@ func NewSendEventUniqueFilterMiddleware$2
+//@   serves C18
